@@ -663,6 +663,28 @@ func runC19(r *Run) {
 				def = append(def, d)
 			}
 		}
+		// near-name decoys: functions whose name extends / is a fragment of a candidate of one of the
+		// contexts (a lookup by prefix, substring or word instead of by exact name would pick them up)
+		if up := uniqSorted(pool); len(up) > 0 && rng.Chance(30) {
+			for j, m := 0, rng.Range(1, 3); j < m; j++ {
+				p := PickOne(rng, up)
+				switch rng.Intn(6) {
+				case 0:
+					def = append(def, p+"::extra")
+				case 1:
+					def = append(def, p+"-old")
+				case 2:
+					def = append(def, p+".bak")
+				case 3:
+					def = append(def, p+"_2")
+				case 4:
+					def = append(def, "x"+p)
+				case 5:
+					def = append(def, p[:len(p)-1])
+				}
+			}
+			c.Note("decoy:near-name")
+		}
 		k.defined = uniqSorted(def)
 		for i := 0; i < n; i++ {
 			if rng.Chance(12) {
